@@ -160,6 +160,83 @@ func runC08(c *core.Ctx) {
 		}
 	}
 
+	c.Rule("C08.kindedrepr", "a kinded union presents its member at representation level: in the methods of bindnode's representation node (_nodeRepr), once the node has been re-pointed to the member (the result of a _nodeRepr method that returns *_nodeRepr), it is converted to the type-level node type only after the member's own representation strategy has been asked for again (a call of a RepresentationStrategy method, directly or through the package's helper, on the path from the re-pointing to the conversion) - otherwise the type-level answer ignores the member's strategy (absent optional fields, renames, tuples)", 4)
+	if reprT := p.NamedType("node/bindnode", "_nodeRepr"); reprT != nil {
+		// asks for a representation strategy: a RepresentationStrategy method call, or a function of the package whose
+		// region makes one
+		asksStrategy := func(ci ssa.CallInstruction) bool {
+			if o := core.CalleeObj(ci); o != nil && o.Name() == "RepresentationStrategy" {
+				return true
+			}
+			if cal := ci.Common().StaticCallee(); cal != nil && len(cal.Blocks) > 0 && core.FuncPkg(cal) != nil && core.RelPkg(core.FuncPkg(cal).Path()) == "node/bindnode" && cal.Signature.Recv() == nil {
+				for _, cj := range core.Calls(cal) {
+					if o := core.CalleeObj(cj); o != nil && o.Name() == "RepresentationStrategy" {
+						return true
+					}
+				}
+			}
+			return false
+		}
+		ms := p.SSA.MethodSets.MethodSet(types.NewPointer(reprT))
+		for i := 0; i < ms.Len(); i++ {
+			fn := p.SSA.MethodValue(ms.At(i))
+			if fn == nil || len(fn.Blocks) == 0 || fn.Synthetic != "" {
+				continue
+			}
+			// the re-pointing calls of this method
+			var repoints []*ssa.Call
+			for _, ci := range core.Calls(fn) {
+				cal := ci.Common().StaticCallee()
+				cv := core.CallValue(ci)
+				if cal == nil || cv == nil || cal.Signature.Recv() == nil || cal.Signature.Results().Len() != 1 || cal.Object() == nil {
+					continue
+				}
+				rp, ok := cal.Signature.Results().At(0).Type().(*types.Pointer)
+				if ok && namedOfType(rp.Elem()) == reprT && core.RecvNamed(cal.Object().(*types.Func)) == reprT {
+					repoints = append(repoints, cv)
+				}
+			}
+			if len(repoints) == 0 {
+				continue
+			}
+			isConv := func(in ssa.Instruction) bool {
+				ct, ok := in.(*ssa.ChangeType)
+				if !ok {
+					return false
+				}
+				pt, ok := ct.X.Type().(*types.Pointer)
+				if !ok || namedOfType(pt.Elem()) != reprT {
+					return false
+				}
+				for w := range core.BackSlice(ct.X, core.SliceOpts{Stores: true}) {
+					for _, rpc := range repoints {
+						if w == ssa.Value(rpc) {
+							return true
+						}
+					}
+				}
+				return false
+			}
+			bad := false
+			var wp []string
+			pos := fn.Pos()
+			for _, rpc := range repoints {
+				path, reached := core.Reach(fn, rpc, isConv, nil, func(in ssa.Instruction) bool {
+					ci, ok := in.(ssa.CallInstruction)
+					return ok && asksStrategy(ci)
+				})
+				if reached {
+					bad = true
+					wp = p.Witness(path)
+					pos = rpc.Pos()
+				}
+			}
+			c.Check(!bad, core.FuncKey(fn)+"#member-strategy-consulted", p.Pos(pos), "after re-pointing to the member its strategy is consulted before any type-level use", "the member of a kinded union is converted to the type-level node and asked there without its own representation strategy having been consulted: the answer ignores it (a struct member with an absent optional field reports a Length its representation iterator does not deliver)", wp...)
+		}
+	} else {
+		c.Undecided("node/bindnode._nodeRepr", "-", "type not found")
+	}
+
 	c.Rule("C08.finishhook", "every Assign* of the representation assembler (bindnode._assemblerRepr) reaches a possibly-successful return only after consulting the finish hook or delegating to another assign (of the type-level assembler, of a kinded member, or AssignString for string-represented enums): a value accepted at representation level is always committed into its parent", 8)
 	if asmT != nil {
 		for _, fn := range assignMethodsOf(p, asmT, true) {
@@ -274,6 +351,86 @@ func runC08(c *core.Ctx) {
 			for _, si := range enumSwitchesTypeSwitchDefaults(p, "schema/gen/go", g.Name()) {
 				c.Check(si, "schema/gen/go."+g.Name()+"#default-panics", p.Pos(g.Pos()), "dispatch default panics", "a dispatch default in "+g.Name()+" does not panic: an unsupported (kind, strategy) combination is skipped silently")
 			}
+		}
+	}
+
+	c.Rule("C08.nullsame", "the read routes of one node agree on what is null: in bindnode, every place that answers datamodel.Null (or datamodel.Absent) for a field or element because the schema says nullable (optional) and the Go value is nil decides it under the same kind of tests - a route that asks one question more (or less) than its siblings reads the same value differently by look-up and by iteration", 4)
+	{
+		type site struct {
+			fn   *ssa.Function
+			ret  *ssa.Return
+			what string
+			sig  string
+		}
+		var sites []site
+		for _, fn := range p.ModFns {
+			pk := core.FuncPkg(fn)
+			if pk == nil || core.RelPkg(pk.Path()) != "node/bindnode" || len(fn.Blocks) == 0 || fn.Synthetic != "" {
+				continue
+			}
+			for _, ret := range core.Returns(fn) {
+				what := ""
+				for _, rv := range ret.Results {
+					if u, ok := core.Strip(rv).(*ssa.UnOp); ok && u.Op == token.MUL {
+						if g, ok := u.X.(*ssa.Global); ok && g.Pkg != nil && core.RelPkg(g.Pkg.Pkg.Path()) == "datamodel" && (g.Name() == "Null" || g.Name() == "Absent") {
+							what = g.Name()
+						}
+					}
+				}
+				if what == "" {
+					continue
+				}
+				// the questions asked on the way: callees of the calls in the conditions of the dominating edges
+				asked := map[string]bool{}
+				schemaSays := false
+				for _, e := range core.IfEdges(fn) {
+					if e.From.Parent() != fn || !core.EdgeDominates(e, ret.Block()) {
+						continue
+					}
+					for w := range core.BackSlice(core.BlockIf(e.From).Cond, core.SliceOpts{Local: true}) {
+						if cl, ok := w.(*ssa.Call); ok {
+							if o := core.CalleeObj(cl); o != nil {
+								asked[o.Name()] = true
+								if o.Name() == "IsNullable" || o.Name() == "IsOptional" {
+									schemaSays = true
+								}
+							}
+						}
+					}
+				}
+				if !schemaSays || !asked["IsNil"] {
+					continue
+				}
+				// only the questions about the Go value (reflect) and the schema field matter
+				var keep []string
+				for n := range asked {
+					switch n {
+					case "IsNullable", "IsOptional", "IsNil", "Kind", "IsZero":
+						keep = append(keep, n)
+					}
+				}
+				sort.Strings(keep)
+				sites = append(sites, site{fn, ret, what, strings.Join(keep, "+")})
+			}
+		}
+		count := map[string]int{}
+		for _, st := range sites {
+			count[st.what+":"+st.sig]++
+		}
+		major := map[string]string{}
+		for _, what := range []string{"Null", "Absent"} {
+			best, bn := "", 0
+			for k, n := range count {
+				if strings.HasPrefix(k, what+":") && (n > bn || (n == bn && k < best)) {
+					best, bn = k, n
+				}
+			}
+			major[what] = strings.TrimPrefix(best, what+":")
+		}
+		nper := map[string]int{}
+		for _, st := range sites {
+			nper[core.FuncKey(st.fn)+st.what]++
+			c.Check(st.sig == major[st.what], fmt.Sprintf("%s#answers-%s/%d", core.FuncKey(st.fn), st.what, nper[core.FuncKey(st.fn)+st.what]), p.Pos(st.ret.Pos()), "decided under the tests its siblings use ("+major[st.what]+")", "this route answers "+st.what+" under the tests "+st.sig+" where the other read routes of bindnode use "+major[st.what]+": the same Go value is "+st.what+" by one route and something else by the other (look-up versus iteration, type level versus representation)")
 		}
 	}
 }
